@@ -45,7 +45,15 @@ def build_rows(market):
             if j > 0 and rng.random() < market.get('missing_p', 0.0):
                 continue        # a missing day (the first day of every file is always present)
             o, c = round(max(o, 0.05), dec), round(max(c, 0.05), dec)
-            rows.append({'date': d.isoformat(), 'open': o, 'close': c, 'adj': round(c * ratio, dec + 2)})
+            a = round(c * ratio, dec + 2)
+            nan_p = market.get('nan_p', 0.0)
+            if nan_p and (j >= market.get('nan_from_row', 0)):
+                lead = j < 2 and market.get('nan_leading')
+                if rng.random() < (0.5 if lead else nan_p):
+                    o = None
+                if rng.random() < (0.5 if lead else nan_p):
+                    c = a = None
+            rows.append({'date': d.isoformat(), 'open': o, 'close': c, 'adj': a})
         out[sym] = rows
     return out
 
@@ -82,9 +90,9 @@ def rewrite(rows_by_sym, rw):
         elif kind == 'scale':
             k = rng.choice([0.1, 3.7, 25.0])
             for r in fut:
-                r['open'] = round(r['open'] * k, 4)
-                r['close'] = round(r['close'] * k, 4)
-                r['adj'] = round(r['adj'] * k, 6)
+                for f, nd in (('open', 4), ('close', 4), ('adj', 6)):
+                    if r[f] is not None:
+                        r[f] = round(r[f] * k, nd)
             out[sym] = keep + fut
         elif kind == 'nan':
             for r in fut:
